@@ -28,7 +28,14 @@ pub fn gen(r: &mut Rng) -> Value {
         let v = r.pick(&VALS).to_string();
         let k = r.pick(&["k1", "k2", "a"]).to_string();
         let i = r.below(4);
-        let op = match r.below(26) {
+        let op = match r.below(33) {
+            26 => json!({"op": "array_join", "slot": h, "v": r.pick(&[",", "", ", ", "-"])}),
+            27 => json!({"op": "array_contains", "slot": h, "v": v}),
+            28 => json!({"op": "array_is_empty", "slot": h}),
+            29 => json!({"op": "map_contains_key", "slot": h, "k": k}),
+            30 => json!({"op": "map_contains_value", "slot": h, "v": v}),
+            31 => json!({"op": "map_is_empty", "slot": h}),
+            32 => json!({"op": "set_is_empty", "slot": h}),
             0 => json!({"op": "array", "slot": h, "vals": [v, k]}),
             1 => json!({"op": "map", "slot": h}),
             2 => json!({"op": "set_new", "slot": h, "vals": [v]}),
@@ -239,6 +246,35 @@ pub fn run(input: &Value) -> Option<Value> {
             "set_size" => match &model[slot] {
                 Some(Coll::Set(s)) => (format!("out = set_size {}", hv), Some(s.len().to_string())),
                 _ => (format!("out = set_size {}", hv), err.clone()),
+            },
+            // script-implemented queries (documented results; on a missing / wrong-kind handle they report an error)
+            "array_join" => match &model[slot] {
+                Some(Coll::Arr(a)) => (format!("out = array_join {} {}", hv, q(&v)), Some(a.join(&v))),
+                _ => (format!("out = array_join {} {}", hv, q(&v)), err.clone()),
+            },
+            "array_contains" => match &model[slot] {
+                Some(Coll::Arr(a)) => (format!("out = array_contains {} {}", hv, q(&v)), Some(a.iter().position(|x| *x == v).map(|i| i.to_string()).unwrap_or("false".to_string()))),
+                _ => (format!("out = array_contains {} {}", hv, q(&v)), err.clone()),
+            },
+            "array_is_empty" => match &model[slot] {
+                Some(Coll::Arr(a)) => (format!("out = array_is_empty {}", hv), Some(a.is_empty().to_string())),
+                _ => (format!("out = array_is_empty {}", hv), err.clone()),
+            },
+            "map_contains_key" => match &model[slot] {
+                Some(Coll::Map(m)) => (format!("out = map_contains_key {} {}", hv, k), Some(m.contains_key(&k).to_string())),
+                _ => (format!("out = map_contains_key {} {}", hv, k), err.clone()),
+            },
+            "map_contains_value" => match &model[slot] {
+                Some(Coll::Map(m)) => (format!("out = map_contains_value {} {}", hv, q(&v)), Some(m.values().any(|x| *x == v).to_string())),
+                _ => (format!("out = map_contains_value {} {}", hv, q(&v)), err.clone()),
+            },
+            "map_is_empty" => match &model[slot] {
+                Some(Coll::Map(m)) => (format!("out = map_is_empty {}", hv), Some(m.is_empty().to_string())),
+                _ => (format!("out = map_is_empty {}", hv), err.clone()),
+            },
+            "set_is_empty" => match &model[slot] {
+                Some(Coll::Set(st)) => (format!("out = set_is_empty {}", hv), Some(st.is_empty().to_string())),
+                _ => (format!("out = set_is_empty {}", hv), err.clone()),
             },
             "is_array" => (format!("out = is_array {}", hv), Some(matches!(model[slot], Some(Coll::Arr(_))).to_string())),
             "is_map" => (format!("out = is_map {}", hv), Some(matches!(model[slot], Some(Coll::Map(_))).to_string())),
